@@ -154,6 +154,17 @@ def run(ctx):
                 known.add(ATTR_KEY)
                 continue
             ofails.append((m, dict(kind="value", repr=repr(w)[:2000], object=name, seed=ctx.seed)))
+    # values judged by the oracle only (numpy string keys are outside the key types of the value model)
+    import numpy as _np
+
+    for name, w in [("npstr-literal-like-keys", {_np.str_("true"): 1, _np.str_("1.50"): 2, _np.str_("null"): 3, _np.str_("NaN"): 4,
+                                                  _np.str_("-0"): 5, _np.str_("1e3"): 6, _np.str_("a"): 7}),
+                    ("npstr-keys-nested", [{"k": {_np.str_("01"): [1], _np.str_("1.0"): (2,)}}])]:
+        try:
+            for m in check_value(w):
+                ofails.append((m, dict(kind="value", repr=repr(w)[:2000], object=name, seed=ctx.seed)))
+        except RecursionError:
+            pass
     for f in findings:
         if f["key"] == ATTR_KEY:
             if ATTR_KEY in known:
